@@ -473,6 +473,9 @@ def main():
     if args.only:
         harnesses = [h for h in harnesses if args.only in h['name']]
         ONLY[0] = args.only   # partial runs never overwrite the registered evidence file
+    if not harnesses:
+        log('INCONCLUSIVE: no harness selected for tier %s (filter %r)' % (args.tier, args.only))
+        return 2
     # seed: permutes the scheduling order only
     import random
     rnd = random.Random(seed)
